@@ -284,12 +284,8 @@ def run(run):
                     for calc in (False, True):
                         cases.append((kind, pieces, order, reader, calc))
     run_cases(run, "vf.props.C18", "check_case", cases, {"tier": run.tier}, chunk=1)
-    try:
-        from vf.contracts import partitions
-        from vf.props._p import run_specs
+    from vf.contracts.registry import run_property_specs
 
-        run_specs(run, partitions.SPECS, "C18")
-    except ImportError:
-        pass
+    run_property_specs(run, "C18")
     run.assume("datasets are written by pandas/pyarrow to a private temporary directory that is removed afterwards; dask_expr/io/tests/test_parquet.py is not collected in this sandbox (it imports distributed)")
     run.trust("pyarrow 25 parquet reader / writer and its statistics")
